@@ -6,7 +6,7 @@
    The combinators below are the vocabulary of the fail-closed translator vlib/props/c17.py: Gen/C17Gen.v is
    a composition of them that follows the source statement by statement. *)
 From Coq Require Import List Arith Bool ZArith NArith.
-From Coq Require String.
+From Coq Require String Ascii.
 Import ListNotations.
 
 Definition mat (A : Type) := list (list A).
@@ -190,3 +190,45 @@ Definition decode_boundary_unpaired (nslots nt : nat) (t2f : mat nat) (f2t : mat
   let m := bitmask_of data in
   let facets := sort_nat (gather_mask nslots nt t2f m) in
   (facets, ori_of f2t facets (mask_cols nslots nt m)).
+
+(* ---- to_dict / from_dict at the level of the key/array scheme.  A boundary is (facets, optional flags);
+        dictionaries are association lists with pairwise distinct keys *)
+Definition tagval := (list nat * option (list bool))%type.
+Definition bdict := list (String.string * tagval).
+(* to_dict: 'boundaries': {k: v.tolist()}, 'orientations': {k: v.ori.tolist() for oriented v} *)
+Definition dict_boundaries (b : bdict) : list (String.string * list nat) := map (fun kv => (fst kv, fst (snd kv))) b.
+Definition dict_orientations (b : bdict) : list (String.string * list bool) :=
+  flat_map (fun kv => match snd (snd kv) with Some o => [(fst kv, o)] | None => [] end) b.
+Fixpoint lookup {V} (k : String.string) (d : list (String.string * V)) : option V :=
+  match d with
+  | [] => None
+  | (k', v) :: d' => if String.eqb k k' then Some v else lookup k d'
+  end.
+(* from_dict: boundaries = {k: array(v)}; for k, v in orientations.items(): boundaries[k] = OrientedBoundary(boundaries[k], v) *)
+Definition dict_load (bs : list (String.string * list nat)) (os : list (String.string * list bool)) : bdict :=
+  map (fun kf => (fst kf, (snd kf, lookup (fst kf) os))) bs.
+
+
+(* ---- cell-data key scheme f"skfem:s:{name}" / f"skfem:b:{name}", parsed with name.split(':') *)
+(* name.split(':') *)
+Fixpoint split_on (c : Ascii.ascii) (s : String.string) : list String.string :=
+  match s with
+  | String.EmptyString => [String.EmptyString]
+  | String.String a s' =>
+      if Ascii.eqb a c then String.EmptyString :: split_on c s'
+      else match split_on c s' with
+           | [] => [String.String a String.EmptyString]
+           | h :: t => String.String a h :: t
+           end
+  end.
+Fixpoint has_char (c : Ascii.ascii) (s : String.string) : bool :=
+  match s with
+  | String.EmptyString => false
+  | String.String a s' => Ascii.eqb a c || has_char c s'
+  end.
+(* what _decode_cell_data reads off a key: (subnames[0], subnames[1], subnames[2]) *)
+Definition colon : Ascii.ascii := Ascii.ascii_of_nat 58.
+Definition parse_key (key : String.string) : String.string * String.string * String.string :=
+  let parts := split_on colon key in
+  (nth 0 parts String.EmptyString, nth 1 parts String.EmptyString, nth 2 parts String.EmptyString).
+
